@@ -122,7 +122,7 @@ def c04(d):
           if not _is_po2(v):
             bad = {"scale_not_po2": float(v)}
           lo, hi = kw.get("min_po2_exponent"), kw.get("max_po2_exponent")
-          if bad is None and lo is not None and not (2.0 ** lo <= v <= 2.0 ** hi):
+          if bad is None and ((lo is not None and v < 2.0 ** lo) or (hi is not None and v > 2.0 ** hi)):
             bad = {"scale_out_of_bounds": float(v), "bounds": [lo, hi]}
       if clause in ("scale_ls", "scale_group") and len(shape) > 1 and not ternary and alpha == "auto":
         axes = _group_axes(len(shape), kw.get("scale_axis"))
@@ -149,8 +149,11 @@ def c05(d):
   kw = {"alpha": rp["kwargs"]["alpha"]}
   if rp["kwargs"].get("scale_axis") is not None:
     kw["scale_axis"] = int(rp["kwargs"]["scale_axis"])
-  if rp.get("bounds_po2"):
-    kw["min_po2_exponent"], kw["max_po2_exponent"] = int(w.get("min_e", -2)), int(w.get("max_e", 2))
+  bk = rp.get("bounds_po2")
+  if bk in (True, "both", "min"):
+    kw["min_po2_exponent"] = int(w.get("min_e", -2))
+  if bk in (True, "both", "max"):
+    kw["max_po2_exponent"] = int(w.get("max_e", 2))
   if rp.get("frozen"):
     kw["post_training_scale"] = float(2.0 ** int(w.get("pts_exp", 0)))
   shape = tuple(rp["shape"])
@@ -191,8 +194,9 @@ def c05(d):
         b = v / 2.0 ** n
         if not _is_po2(b):
           bad = {"scale_over_2^n_not_po2": float(b)}
-        elif rp.get("bounds_po2") and not (2.0 ** kw["min_po2_exponent"] <= b <= 2.0 ** kw["max_po2_exponent"]):
-          bad = {"scale_exponent_out_of_bounds": float(b)}
+        elif ("min_po2_exponent" in kw and b < 2.0 ** kw["min_po2_exponent"]) or (
+            "max_po2_exponent" in kw and b > 2.0 ** kw["max_po2_exponent"]):
+          bad = {"scale_exponent_out_of_bounds": float(b), "bounds": [kw.get("min_po2_exponent"), kw.get("max_po2_exponent")]}
     if clause == "max_to_top" and kw["alpha"] == "auto":
       axes = _group_axes(len(shape), kw.get("scale_axis")) if len(shape) > 1 else (0,)
       m = np.max(np.abs(t), axis=axes, keepdims=True)
